@@ -113,6 +113,34 @@ Theorem validation_subset :
 Proof. exact validate_command_l. Qed.
 Print Assumptions validation_subset.
 
+(* A command that passes validation after the TTL: the candidates were rebuilt from the current cluster state, none is
+   missing or nominated, and every pod bound to a candidate AT VALIDATION TIME ([expect], covered by the re-simulation) is
+   placed on an initialized remaining node or the single replacement; the replacement's types are among the re-simulated. *)
+Theorem validated_command_pods_have_home :
+  forall present nominated budget_ok nrepl repl s expect,
+  validate present nominated budget_ok nrepl repl s = true -> wf_sim s -> covers expect s ->
+  present = true /\ nominated = false /\
+  (length (s_new s) <= 1)%nat /\ (nrepl = 0%nat <-> s_new s = []) /\
+  (forall nc, s_new s = [nc] -> incl repl (map it_name (nc_opts nc))) /\
+  forall id, List.In id expect ->
+    exists p, List.In p (s_pods s) /\ pp_id p = id /\ good_place (length (s_new s)) (pp_where p) = true.
+Proof. exact validated_command_pods_have_home_l. Qed.
+Print Assumptions validated_command_pods_have_home.
+
+(* validation maps the proposal onto the CURRENT candidate objects (not the ones captured when it was computed) *)
+Theorem validation_uses_current_candidates :
+  forall proposed current c, List.In c (map_candidates proposed current) -> List.In c current /\ mem (c_name c) proposed = true.
+Proof. exact map_candidates_current. Qed.
+Print Assumptions validation_uses_current_candidates.
+
+(* an Emptiness command that passes validation keeps only proposed nodes that are empty NOW and not nominated *)
+Theorem validated_emptiness :
+  forall proposed current names, validate_empty proposed current = Some names ->
+  forall n, List.In n names -> exists c nom, List.In (c, nom) current /\ c_name c = n /\ mem n proposed = true /\
+     nom = false /\ forall p, List.In p (c_pods c) -> p <= 0.
+Proof. exact validate_empty_l. Qed.
+Print Assumptions validated_emptiness.
+
 (* The oracles evaluated on the implementation's commands are the specification. *)
 Theorem oracle_strictly_cheaper : forall cat cp c, cheaper_cmd_b cat cp c = true <-> cheaper_cmd cat cp c.
 Proof. exact cheaper_cmd_b_iff. Qed.
